@@ -31,6 +31,18 @@ package forward
 //@ prop C20
 //@ modifies *
 //@ at call DialContext assert $2 == "tcp" && $3 == old(target)
+//@ note C03 (responder, port forward): one fresh pair; secret = ECDH(own private, initiator's public) with nil error; key derived for (request id received, initiator public, own public, responder); that key is the connection's key and the ACK carries the own public key and the same request id
+//@ after call crypto.GenerateEphemeralKeypair let c03priv = $ret0
+//@ after call crypto.GenerateEphemeralKeypair let c03pub = $ret1
+//@ after call crypto.GenerateEphemeralKeypair let c03genErr = $ret2
+//@ at[C03] call crypto.ComputeECDH assert c03genErr == nil && c03pub == pubOf(c03priv)
+//@ at[C03] call crypto.ComputeECDH assert $0 == c03priv && $1 == remoteEphemeralPub
+//@ after call crypto.ComputeECDH let c03secret = $ret0
+//@ after call crypto.ComputeECDH let c03dhErr = $ret1
+//@ at[C03] call crypto.DeriveSessionKey assert c03dhErr == nil && $0 == c03secret && c03secret == dh(c03priv, remoteEphemeralPub) && c03secret != zeros()
+//@ at[C03] call crypto.DeriveSessionKey assert $1 == requestID && $2 == remoteEphemeralPub && $3 == c03pub && $4 == false
+//@ after call crypto.DeriveSessionKey let c03key = $ret
+//@ at[C03] call WriteStreamOpenAck assert $3 == requestID && $6 == c03pub && ac.sessionKey == c03key && c03key != nil
 
 //@ census[C20] DialContext in (*Handler).handleStreamOpenAsync
 //@ census[C20] (*Handler).handleStreamOpenAsync in (*Handler).HandleStreamOpen
@@ -54,6 +66,11 @@ package forward
 //@ after call Encrypt let ct = $ret0
 //@ at call StreamWriter.WriteStreamData#0 assert $3 == ct && len($3) <= 16384 && $1 == ac.RemoteID && $2 == ac.StreamID && $4 == 0
 //@ at call StreamWriter.WriteStreamData#1 assert len($3) == 0 && $1 == ac.RemoteID && $2 == ac.StreamID && $4 == 1
+//@ note C04 (endpoint): whatever this loop hands to the mesh for the tunnel is the output of Encrypt under the connection's own key, or empty (FIN)
+//@ at[C04] call Encrypt assert $0 == ac.sessionKey && ac.sessionKey != nil
+//@ at[C04] call StreamWriter.WriteStreamData#0 assert $3 == ct
+//@ at[C04] call StreamWriter.WriteStreamData#1 assert len($3) == 0
+//@ census[C04] StreamWriter.WriteStreamData in (*Handler).readLoop
 //@ census[C07] StreamWriter.WriteStreamData in (*Handler).readLoop
 
 // Forward path at the far end: the payload of a data frame is opened whole and
@@ -67,3 +84,6 @@ package forward
 //@ after call Decrypt let pt = $ret0
 //@ at call net.Conn.Write assert $1 == pt && $0 == conn0 && ac == h.connections[streamID]
 //@ census[C07] net.Conn.Write in (*Handler).HandleStreamData
+
+//@ census[C03] crypto.DeriveSessionKey in (*Handler).handleStreamOpenAsync
+//@ census[C03] crypto.ComputeECDH in (*Handler).handleStreamOpenAsync
